@@ -27,7 +27,9 @@ SCHEMES = [
 for _s in SCHEMES:
     assert sorted(_s, key=lambda x: x.encode()) == _s
 
-MODULE_TIMEOUT = 30
+MODULE_TIMEOUT = 6          # a normal run takes ~20 ms; a hang is confirmed by a re-run with 4x the time
+HANGS = []                  # confirmed hangs; after a few the remaining replays are skipped (verdict is exit 1 anyway)
+MAX_HANGS = 2
 
 
 def ghash(rec):
@@ -173,7 +175,10 @@ def module_run(out, ins, oc, trace=None, extra=()):
                      + list(extra) + list(ins), cwd=out, timeout=MODULE_TIMEOUT, outputs=(oc,), trace=trace)
     if r.timed_out:        # a hang is reported only if it repeats
         r = run.run_tool("interrogate_module", ["-python-native", "-module", "M", "-library", "M", "-oc", oc]
-                         + list(extra) + list(ins), cwd=out, timeout=MODULE_TIMEOUT, outputs=(oc,), trace=trace)
+                         + list(extra) + list(ins), cwd=out, timeout=4 * MODULE_TIMEOUT, outputs=(oc,), trace=trace)
+        if r.timed_out:
+            HANGS.append(list(ins))
+            r.stderr = r.stderr[:2000]
     return r
 
 
@@ -209,6 +214,8 @@ def replay_graph(ctx, rec, root, tier):
     exp = expected(rec, names)
     bad, events, nrun = [], [], 0
     for k, perm in enumerate(orders_for(rec, tier)):
+        if len(HANGS) >= MAX_HANGS:
+            break
         ins = [names[i - 1] + ".in" for i in perm]
         oc = "M_%d.cxx" % k
         tr = os.path.join(out, "tr_%d.ndjson" % k)
@@ -218,8 +225,8 @@ def replay_graph(ctx, rec, root, tier):
                     argv_order=ins, expected=exp)
         if r.timed_out:
             bad.append(("interrogate_module did not finish within %ds (graph %r, order %s)" % (
-                MODULE_TIMEOUT, rec["g"], ins), dict(case, observed="timeout")))
-            continue
+                4 * MODULE_TIMEOUT, rec["g"], ins), dict(case, observed="timeout")))
+            break
         if r.rc != 0 or not r.outputs[oc]:
             bad.append(("interrogate_module exit %s / output present=%s on loadable databases (graph %r, order %s)" % (
                 r.rc, r.outputs[oc], rec["g"], ins), dict(case, stderr=r.stderr[-1500:])))
@@ -333,6 +340,9 @@ def failure_cases(ctx, rec, root, tier):
             open(os.path.join(out, oc), "w").write("// stale output of an earlier run\n")
         r = run.run_tool("interrogate_module", mode + ["-module", "M", "-library", "M", "-oc", oc] + ins,
                          cwd=out, timeout=MODULE_TIMEOUT, outputs=(oc,))
+        if r.timed_out:
+            r = run.run_tool("interrogate_module", mode + ["-module", "M", "-library", "M", "-oc", oc] + ins,
+                             cwd=out, timeout=4 * MODULE_TIMEOUT, outputs=(oc,))
         ok = (not r.timed_out) and r.rc not in (0, None) and r.signal == 0 and not r.outputs[oc]
         return ok, dict(kind=kind, position=pos, mode=mode[0], argv=ins, rc=r.rc, signal=r.signal,
                         timed_out=r.timed_out, output_left=r.outputs[oc], stale_output_before=stale,
@@ -473,6 +483,8 @@ def run_check(ctx):
     ctx.cov["distinct_nontrivial"] = nontrivial
     ctx.cov["traces_validated_against_impl"] += nruns
     ctx.notes["digraphs_replayed"] = len(recs)
+    if HANGS:
+        ctx.notes["replay_cut_short_after_confirmed_hangs"] = HANGS[:MAX_HANGS]
     ctx.notes["cyclic_digraphs"] = sum(1 for r in recs if is_cyclic(r))
     for rec in [r for r in recs if r["n"] == 3][5::13][:5]:
         h = ghash(rec)
